@@ -168,6 +168,13 @@ def _ti_dumps(o):
     return TI.dumps(o)
 
 
+def _reloaded_images(im):
+    import productmd.images as pi
+    back = pi.Images()
+    back.loads(im.dumps())
+    return back
+
+
 BASES = {
     "composeinfo:flat": (lambda: CI.build(CI.seed_flat()), positions_ci, None),
     "composeinfo:forest": (lambda: CI.build(CI.seed_forest()), positions_ci, None),
@@ -175,6 +182,10 @@ BASES = {
     "images:one": (lambda: IM.build(IM.seed_one()), positions_im, None),
     "images:grid": (lambda: IM.build(IM.seed_grid()), positions_im, None),
     "images:v11": (lambda: IM.build(IM.seed_v11()), positions_im, None),
+    # the grid manifest as a reader hands it out: an image filed in several cells is one OBJECT PER CELL with the same path
+    "images:grid-reloaded": (lambda: _reloaded_images(IM.build(IM.seed_grid())), positions_im, None),
+    # a label whose milestone is not one of the "final" milestones
+    "composeinfo:beta-label": (lambda: CI.build(CI.apply_spec(CI.seed_flat(), ["label", "Beta-1.2", False])), positions_ci, None),
     "rpms": (MISC.rpms, positions_compose_only, None),
     "modules": (MISC.modules, positions_compose_only, None),
     "extra_files": (MISC.extra_files, positions_compose_only, None),
@@ -184,7 +195,7 @@ BASES = {
     "treeinfo:layered": (lambda: TI.build(TI.seed_layered()), positions_ti, _ti_dumps),
     "discinfo": (MISC.discinfo, positions_di, None),
 }
-QUICK_BASES = ["composeinfo:forest", "composeinfo:layered", "images:grid", "images:v11", "rpms", "modules", "extra_files",
+QUICK_BASES = ["composeinfo:forest", "composeinfo:layered", "composeinfo:beta-label", "images:grid", "images:grid-reloaded", "images:v11", "rpms", "modules", "extra_files",
                "treeinfo:nested", "treeinfo:empty-tables", "treeinfo:layered", "discinfo"]
 
 
